@@ -197,6 +197,9 @@ func LoadContracts(e *Engine, ld *Loaded, trustedDir string) ([]FuncTarget, []*L
 		if err != nil {
 			return nil, nil, err
 		}
+		for _, g := range cf.GhostFns {
+			e.GhostFns[g.Name] = g
+		}
 		for _, fc := range cf.Funcs {
 			fc.Trusted = true
 			if _, ok := e.Contracts[fc.Key]; !ok {
